@@ -1993,6 +1993,34 @@ theorem lookup_freqTable (sd : SD) (s : Int) : (lookupIn (freqTable sd) s).getD 
   unfold freq
   cases countOf sd.counts s <;> simp
 
+theorem mergeSD_empty (a : SD) (u : Bool) : mergeSD a (countAll u []) = a := by
+  cases a
+  simp [mergeSD, countAll]
+
+theorem countAll_total (u : Bool) (ts : List TreeRec) : (countAll u ts).total = ts.length := by
+  have := (countAll_gen 0 ts { useWeights := u }).2.1
+  unfold countAll; rw [this]; simp
+
+theorem inv_merge (c : Cached) (u : Bool) (ts : List TreeRec) (h : CacheInv c) : CacheInv (c.merge (countAll u ts)) := by
+  obtain ⟨h1, _, h3, _⟩ := h
+  have ht : (c.merge (countAll u ts)).sd.total = c.sd.total + ts.length := by
+    show c.sd.total + (countAll u ts).total = _
+    rw [countAll_total]
+  refine ⟨?_, ?_, ?_, ?_⟩
+  · show c.countedForFreqs ≤ (c.merge (countAll u ts)).sd.total; rw [ht]; omega
+  · show 0 ≤ _; omega
+  · intro tbl hf he
+    have he' : c.countedForFreqs = (c.merge (countAll u ts)).sd.total := he
+    rw [ht] at he'
+    have hl : ts.length = 0 := by omega
+    have hnil : ts = [] := List.length_eq_zero_iff.mp hl
+    subst hnil
+    show tbl = freqTable (mergeSD c.sd (countAll u []))
+    rw [mergeSD_empty]
+    exact h3 tbl hf (by simpa using he')
+  · intro tbl hf _
+    simp [Cached.merge] at hf
+
 theorem run_gen : ∀ (evs : List Ev) (c : Cached), CacheInv c → Cached.run c evs = specRun c.sd evs := by
   intro evs
   induction evs with
@@ -2018,6 +2046,9 @@ theorem run_gen : ∀ (evs : List Ev) (c : Cached), CacheInv c → Cached.run c 
     | refused t =>
       simp only [Cached.run, Cached.step, specRun]
       exact ih c h
+    | merge ts =>
+      simp only [Cached.run, Cached.step, specRun]
+      exact ih (c.merge (countAll c.sd.useWeights ts)) (inv_merge c _ ts h)
 
 /-! credibility scores -/
 theorem foldl_prod_nonzero : ∀ (l : List Rat) (acc : Rat),
@@ -2071,6 +2102,7 @@ theorem refused_offers_invisible (useW : Bool) (evs : List Ev) :
       | summ s => simp only [List.filter_cons, specRun]; exact congrArg _ (ih sd)
       | ages => simp only [List.filter_cons, specRun]; exact ih sd
       | refused t => simp only [List.filter_cons, specRun]; exact ih sd
+      | merge ts => simp only [List.filter_cons, specRun]; exact ih _
   exact this evs _
 
 /-- a history with a refused offer between two accepted ones (hypothesis-free theorem; the concrete instance) -/
@@ -4013,4 +4045,145 @@ example : (some false : Option Bool) ≠ some true
         = [.node 1 (some 0) none none [], .node 2 (some 1) none none []] := by
   refine ⟨by simp, by simp [T.toH, T.toHL, Good, GoodL, Hier.mask, Hier.maskL], ?_⟩
   simp [C01.encodeTree, T.cs, T.collapseBasal, T.sup, T.supL, T.withLen, tryAdd, addLen, T.len]
+end DendroModel.C05
+
+namespace DendroModel.C05.Aux
+open DendroModel DendroModel.Hier DendroModel.C05
+
+/-- a Python dict: no key twice -/
+def KeysNodup (d : List (Int × Rat)) : Prop := (d.map (·.1)).Nodup
+
+theorem addCount_keys (d : List (Int × Rat)) (k : Int) (w : Rat) :
+    (addCount d k w).map (·.1) = if k ∈ d.map (·.1) then d.map (·.1) else d.map (·.1) ++ [k] := by
+  induction d with
+  | nil => simp [addCount]
+  | cons q rest ih =>
+    simp only [addCount]
+    by_cases hq : q.1 = k
+    · simp [hq]
+    · have hq' : (q.1 == k) = false := by simpa using hq
+      have hk : ¬ k = q.1 := fun e => hq e.symm
+      simp only [hq', Bool.false_eq_true, if_false, List.map_cons, ih, List.mem_cons, hk, false_or]
+      split <;> simp
+
+theorem addCount_nodup (d : List (Int × Rat)) (k : Int) (w : Rat) (h : KeysNodup d) : KeysNodup (addCount d k w) := by
+  unfold KeysNodup at *
+  rw [addCount_keys]
+  split
+  · exact h
+  · rename_i hk
+    exact List.nodup_append.mpr ⟨h, by simp, by intro a ha b hb; simp at hb; subst hb; intro e; subst e; exact hk ha⟩
+
+theorem fold_addCount_nodup (w : Rat) : ∀ (xs : List Int) (d : List (Int × Rat)), KeysNodup d →
+    KeysNodup (xs.foldl (fun d x => addCount d x w) d)
+  | [], d, h => h
+  | x :: xs, d, h => by rw [List.foldl_cons]; exact fold_addCount_nodup w xs _ (addCount_nodup d x w h)
+
+theorem countAll_keys_nodup (u : Bool) (ts : List TreeRec) : KeysNodup (countAll u ts).counts := by
+  unfold countAll
+  have : ∀ (ts : List TreeRec) (sd : SD), KeysNodup sd.counts → KeysNodup (ts.foldl countTree sd).counts := by
+    intro ts
+    induction ts with
+    | nil => intro sd h; exact h
+    | cons t ts ih =>
+      intro sd h
+      rw [List.foldl_cons]
+      apply ih
+      simp only [countTree]
+      exact fold_addCount_nodup _ _ _ h
+  apply this
+  simp [KeysNodup]
+
+theorem countOf_none_of_not_mem (d : List (Int × Rat)) (s : Int) (h : s ∉ d.map (·.1)) : countOf d s = none := by
+  induction d with
+  | nil => rfl
+  | cons q rest ih =>
+    simp only [List.map_cons, List.mem_cons, not_or] at h
+    have hq : ¬ q.1 = s := fun e => h.1 e.symm
+    have : countOf (q :: rest) s = countOf rest s := by simp [countOf, hq]
+    rw [this]; exact ih h.2
+
+/-- adding the entries of a dict `b` to a dict `a`: the count of `s` grows by `b`'s count of `s` -/
+theorem countOf_merge : ∀ (b a : List (Int × Rat)) (s : Int), KeysNodup b →
+    countOf (b.foldl (fun d p => addCount d p.1 p.2) a) s
+      = (match countOf b s with
+         | none => countOf a s
+         | some y => some ((countOf a s).getD 0 + y))
+  | [], a, s, _ => by simp [countOf]
+  | q :: rest, a, s, h => by
+    have hnd := List.nodup_cons.mp (show (q.1 :: rest.map (·.1)).Nodup from h)
+    rw [List.foldl_cons, countOf_merge rest _ s hnd.2, countOf_addCount]
+    by_cases hq : s = q.1
+    · have hnone : countOf rest s = none := countOf_none_of_not_mem rest s (by rw [hq]; exact hnd.1)
+      have hb : countOf (q :: rest) s = some q.2 := by simp [countOf, hq]
+      rw [hnone, hb]; simp [hq]
+    · have hq' : ¬ q.1 = s := fun e => hq e.symm
+      have hb : countOf (q :: rest) s = countOf rest s := by simp [countOf, hq']
+      rw [hb]; simp only [hq, if_false]
+
+theorem wsum_append (u : Bool) (a b : List TreeRec) (s : Int) : wsum u (a ++ b) s = wsum u a s + wsum u b s := by
+  simp [wsum]
+
+theorem countAll_sumW (u : Bool) (ts : List TreeRec) : (countAll u ts).sumW = (ts.map (wt u)).sum := by
+  have := (countAll_gen 0 ts { useWeights := u }).2.2.1
+  unfold countAll; rw [this]; simp
+
+theorem freq_congr (a b : SD) (s : Int) (h1 : countOf a.counts s = countOf b.counts s) (h2 : a.total = b.total)
+    (h3 : a.sumW = b.sumW) : freq a s = freq b s := by
+  unfold freq normW
+  rw [h1, h2, h3]
+
+end DendroModel.C05.Aux
+
+namespace DendroModel.C05
+open DendroModel DendroModel.Hier DendroModel.C05.Aux
+
+/-- **Merging is counting.**  A distribution that counted `ts1` and is then `update`d from a distribution (same weight flag) that
+    counted `ts2` reports, for every split, exactly the frequency of one distribution that counted `ts1 ++ ts2`: counts, number of
+    trees and weight sum all add up.  With `freq_never_stale` (whose histories now contain merges) every frequency answered after
+    any interleaving of additions, merges, refused offers and queries is the weighted fraction over all trees that came in either way. -/
+theorem merge_freq_spec (u : Bool) (ts1 ts2 : List TreeRec) (s : Int) :
+    freq (mergeSD (countAll u ts1) (countAll u ts2)) s = freq (countAll u (ts1 ++ ts2)) s
+    ∧ (mergeSD (countAll u ts1) (countAll u ts2)).total = (ts1 ++ ts2).length := by
+  constructor
+  · apply freq_congr
+    · show countOf ((countAll u ts2).counts.foldl (fun d p => addCount d p.1 p.2) (countAll u ts1).counts) s = _
+      rw [countOf_merge _ _ s (countAll_keys_nodup u ts2), count_spec, count_spec, count_spec]
+      by_cases h1 : ∃ t ∈ ts1, s ∈ t.splits <;> by_cases h2 : ∃ t ∈ ts2, s ∈ t.splits
+      · have h : ∃ t ∈ ts1 ++ ts2, s ∈ t.splits := by obtain ⟨t, ht, hs⟩ := h1; exact ⟨t, by simp [ht], hs⟩
+        rw [if_pos h1, if_pos h2, if_pos h]; simp [wsum_append]
+      · have h : ∃ t ∈ ts1 ++ ts2, s ∈ t.splits := by obtain ⟨t, ht, hs⟩ := h1; exact ⟨t, by simp [ht], hs⟩
+        have hz : wsum u ts2 s = 0 := by
+          unfold wsum; apply List.sum_eq_zero; intro x hx
+          obtain ⟨t', ht', rfl⟩ := List.mem_map.mp hx
+          have : s ∉ t'.splits := fun hh => h2 ⟨t', ht', hh⟩
+          simp [List.count_eq_zero_of_not_mem this]
+        rw [if_pos h1, if_neg h2, if_pos h]; simp [wsum_append, hz]
+      · have h : ∃ t ∈ ts1 ++ ts2, s ∈ t.splits := by obtain ⟨t, ht, hs⟩ := h2; exact ⟨t, by simp [ht], hs⟩
+        have hz : wsum u ts1 s = 0 := by
+          unfold wsum; apply List.sum_eq_zero; intro x hx
+          obtain ⟨t', ht', rfl⟩ := List.mem_map.mp hx
+          have : s ∉ t'.splits := fun hh => h1 ⟨t', ht', hh⟩
+          simp [List.count_eq_zero_of_not_mem this]
+        rw [if_neg h1, if_pos h2, if_pos h]; simp [wsum_append, hz, countOf]
+      · have h : ¬ ∃ t ∈ ts1 ++ ts2, s ∈ t.splits := by
+          rintro ⟨t, ht, hs⟩
+          rcases List.mem_append.mp ht with ht | ht
+          · exact h1 ⟨t, ht, hs⟩
+          · exact h2 ⟨t, ht, hs⟩
+        rw [if_neg h1, if_neg h2, if_neg h]
+    · show (countAll u ts1).total + (countAll u ts2).total = _
+      rw [countAll_total, countAll_total, countAll_total]; simp
+    · show (countAll u ts1).sumW + (countAll u ts2).sumW = _
+      rw [countAll_sumW, countAll_sumW, countAll_sumW]; simp
+  · show (countAll u ts1).total + (countAll u ts2).total = _
+    rw [countAll_total, countAll_total]; simp
+
+/-- a history with a merge: one tree counted, a distribution of one tree merged in, a query — answered as if both had been counted -/
+example : Cached.run { sd := { useWeights := false } } [Ev.add exRec, Ev.freq 6, Ev.merge [exRec], Ev.freq 6]
+    = specRun { useWeights := false } [Ev.add exRec, Ev.freq 6, Ev.merge [exRec], Ev.freq 6] :=
+  freq_never_stale false _
+example : freq (mergeSD (countAll false [exRec]) (countAll false [exRec])) 6 = freq (countAll false ([exRec] ++ [exRec])) 6 :=
+  (merge_freq_spec false [exRec] [exRec] 6).1
+
 end DendroModel.C05
